@@ -72,3 +72,35 @@ pub fn at_addr(msg: &[u8], off: usize) -> (Vec<u8>, usize) {
     big[start..start + msg.len()].copy_from_slice(msg);
     (big, start)
 }
+
+/// a copy of `data` whose LAST byte is the last byte of a readable page: the page behind it is PROT_NONE, the bytes in front of it
+/// too if `data` fills… (only the end is guarded).  Reading one byte past the operand faults (the runner dies: reported as abort).
+pub struct Guarded {
+    base: *mut u8,
+    total: usize,
+    start: usize,
+    len: usize,
+}
+impl Guarded {
+    pub fn new(data: &[u8]) -> Guarded {
+        unsafe {
+            let page = libc::sysconf(libc::_SC_PAGESIZE) as usize;
+            let npages = (data.len() + page - 1) / page + 1;
+            let total = (npages + 1) * page;
+            let base = libc::mmap(std::ptr::null_mut(), total, libc::PROT_READ | libc::PROT_WRITE, libc::MAP_PRIVATE | libc::MAP_ANONYMOUS, -1, 0) as *mut u8;
+            assert!(base as isize != -1);
+            libc::mprotect(base.add(npages * page) as *mut libc::c_void, page, libc::PROT_NONE);
+            let start = npages * page - data.len();
+            std::ptr::copy_nonoverlapping(data.as_ptr(), base.add(start), data.len());
+            Guarded { base, total, start, len: data.len() }
+        }
+    }
+    pub fn as_slice(&self) -> &[u8] {
+        unsafe { std::slice::from_raw_parts(self.base.add(self.start), self.len) }
+    }
+}
+impl Drop for Guarded {
+    fn drop(&mut self) {
+        unsafe { libc::munmap(self.base as *mut libc::c_void, self.total); }
+    }
+}
